@@ -30,8 +30,8 @@ for p in props:
 man = {
     "version": 1,
     "setup_cmd": "./setup.sh",
-    "hooks": {"guard": "surrealkv_verif", "enable": "none needed: the analysis reads the unmodified source through a rustc_private driver (RUSTC_WORKSPACE_WRAPPER); no cfg hook exists in /repo",
-              "baseline_off_cmd": "cd /repo && CARGO_NET_OFFLINE=true cargo test --offline --lib", "source_commits": [], "add_only": True},
+    "hooks": {"guard": "surrealkv_verif", "enable": "RUSTFLAGS='--cfg surrealkv_verif' -- used ONLY by the demonstration test repro/triage.rs::d16w (one-shot WAL append failure); the checks themselves analyse the unmodified default build through a rustc_private driver and need no hook",
+              "baseline_off_cmd": "cd /repo && CARGO_NET_OFFLINE=true cargo test --offline --lib", "source_commits": ["0a6cf09"], "add_only": True},
     "engines": [
         {"name": "skv-facts", "path": "driver/", "serves_properties": [c["property_id"] for c in checks], "kind_free_text": "rustc_private driver (nightly) dumping mir_built facts of the lib crate as JSON"},
         {"name": "skvlint", "path": "skvlint/", "serves_properties": [c["property_id"] for c in checks], "kind_free_text": "Python rule engine: call graph, dominance, must-pass-through, provenance, guard regions, decision tables"},
